@@ -13,6 +13,7 @@ func init() { verifRegister("C13_rt", VerifHarness_C13_rt) }
 const (
 	c13Group, c13Delim, c13Opt, c13Nested, c13NDelim, c13NOpt, c13After = 453, 448, 447, 802, 523, 803, 452
 	c13Other, c13OtherDelim, c13Follow                                  = 555, 600, 461
+	c13Sibling, c13SDelim                                               = 804, 545
 )
 
 func c13NestedTemplate() GroupTemplate {
@@ -20,7 +21,8 @@ func c13NestedTemplate() GroupTemplate {
 }
 
 func c13Template() GroupTemplate {
-	return GroupTemplate{GroupElement(c13Delim), GroupElement(c13Opt), NewRepeatingGroup(c13Nested, c13NestedTemplate()), GroupElement(c13After)}
+	return GroupTemplate{GroupElement(c13Delim), GroupElement(c13Opt), NewRepeatingGroup(c13Nested, c13NestedTemplate()),
+		NewRepeatingGroup(c13Sibling, GroupTemplate{GroupElement(c13SDelim)}), GroupElement(c13After)}
 }
 
 func c13Dict() *datadictionary.DataDictionary {
@@ -31,7 +33,8 @@ func c13Dict() *datadictionary.DataDictionary {
 		return datadictionary.NewGroupFieldDef(datadictionary.NewFieldType("G", tag, "NUMINGROUP"), false, parts)
 	}
 	nested := gt(c13Nested, ft(c13NDelim), ft(c13NOpt))
-	grp := gt(c13Group, ft(c13Delim), ft(c13Opt), nested, ft(c13After))
+	sibling := gt(c13Sibling, ft(c13SDelim))
+	grp := gt(c13Group, ft(c13Delim), ft(c13Opt), nested, sibling, ft(c13After))
 	other := gt(c13Other, ft(c13OtherDelim))
 	return &datadictionary.DataDictionary{
 		Messages: map[string]*datadictionary.MessageDef{"D": datadictionary.NewMessageDef("D", "D", []datadictionary.MessagePart{ft(11), grp, ft(c13Follow), other})},
@@ -49,6 +52,7 @@ type c13Entry struct {
 	hasOpt   bool
 	opt      []byte
 	nested   []c13Nest
+	sibling  [][]byte // a second nested group right after the first
 	hasAfter bool
 	after    []byte
 }
@@ -81,6 +85,13 @@ func VerifHarness_C13_rt() {
 				e.nested = append(e.nested, ne)
 			}
 			ge.SetGroup(ng)
+		}
+		if ndBool("has-sibling-nested-group") {
+			sg := NewRepeatingGroup(c13Sibling, GroupTemplate{GroupElement(c13SDelim)})
+			v := verifValueN("sdelim", 1)
+			sg.Add().SetBytes(c13SDelim, v)
+			e.sibling = append(e.sibling, v)
+			ge.SetGroup(sg)
 		}
 		if ndBool("has-after-nested") {
 			e.hasAfter, e.after = true, verifValueN("after", 1)
@@ -151,6 +162,17 @@ func VerifHarness_C13_rt() {
 		verifAssert(ok == e.hasOpt && (!ok || verifBytesEq(o, e.opt)), "entry-optional-member")
 		a, ok := val(&ge.FieldMap, c13After)
 		verifAssert(ok == e.hasAfter && (!ok || verifBytesEq(a, e.after)), "entry-member-after-nested-group")
+		sgr := NewRepeatingGroup(c13Sibling, GroupTemplate{GroupElement(c13SDelim)})
+		serr := ge.GetGroup(sgr)
+		if len(e.sibling) == 0 {
+			verifAssert(serr != nil || sgr.Len() == 0, "sibling-nested-group-absent")
+		} else {
+			verifAssert(serr == nil && sgr.Len() == 1, "sibling-nested-group-read-back")
+			if serr == nil && sgr.Len() == 1 {
+				d, ok := val(&sgr.Get(0).FieldMap, c13SDelim)
+				verifAssert(ok && verifBytesEq(d, e.sibling[0]), "sibling-nested-group-value")
+			}
+		}
 		ng := NewRepeatingGroup(c13Nested, c13NestedTemplate())
 		nerr := ge.GetGroup(ng)
 		if len(e.nested) == 0 {
@@ -168,6 +190,15 @@ func VerifHarness_C13_rt() {
 			o, ok := val(&nge.FieldMap, c13NOpt)
 			verifAssert(ok == ne.hasOpt && (!ok || verifBytesEq(o, ne.opt)), "nested-optional-member")
 		}
+	}
+	// parsed with the dictionary, the members of the group are part of the group field, not plain body fields, and a
+	// copy of the message still holds the whole group
+	if dict != nil && len(want) > 0 {
+		verifAssert(!p.Body.Has(c13Delim) && !p.Body.Has(c13Nested) && !p.Body.Has(c13Sibling) && !p.Body.Has(c13SDelim) && !p.Body.Has(c13After), "group-members-not-plain-body-fields")
+		cp := NewMessage()
+		p.CopyInto(cp)
+		cg := NewRepeatingGroup(c13Group, c13Template())
+		verifAssert(cp.Body.GetGroup(cg) == nil && cg.Len() == len(want), "copied-message-keeps-the-group")
 	}
 	// fields around the group are still found in the body
 	switch place {
